@@ -228,11 +228,11 @@ class SED(object):
             sed.distance = 1. * u.kpc
 
         # Extract SED values
-        wav = hdulist[1].data.field('WAVELENGTH') * parse_unit_safe(hdulist[1].columns[0].unit)
-        nu = hdulist[1].data.field('FREQUENCY') * parse_unit_safe(hdulist[1].columns[1].unit)
-        ap = hdulist[2].data.field('APERTURE') * parse_unit_safe(hdulist[2].columns[0].unit)
-        flux = hdulist[3].data.field('TOTAL_FLUX') * parse_unit_safe(hdulist[3].columns[0].unit)
-        error = hdulist[3].data.field('TOTAL_FLUX_ERR') * parse_unit_safe(hdulist[3].columns[1].unit)
+        wav = hdulist[1].data.field('WAVELENGTH') * parse_unit_safe(hdulist[1].columns['WAVELENGTH'].unit)
+        nu = hdulist[1].data.field('FREQUENCY') * parse_unit_safe(hdulist[1].columns['FREQUENCY'].unit)
+        ap = hdulist[2].data.field('APERTURE') * parse_unit_safe(hdulist[2].columns['APERTURE'].unit)
+        flux = hdulist[3].data.field('TOTAL_FLUX') * parse_unit_safe(hdulist[3].columns['TOTAL_FLUX'].unit)
+        error = hdulist[3].data.field('TOTAL_FLUX_ERR') * parse_unit_safe(hdulist[3].columns['TOTAL_FLUX_ERR'].unit)
 
         # Set SED attributes
         sed.apertures = ap
